@@ -861,6 +861,10 @@ class Interp:
         if isinstance(e, ast.Name):
             if e.id in env:
                 return env[e.id]
+            if f is not None and e.id in f.local_names():
+                # a local with no binding on any path that reaches here: reading it raises
+                # (UnboundLocalError), so it contributes nothing (bottom), not "unknown"
+                return Sym(dom.bottom())
             return self.global_name(e, f)
         if isinstance(e, ast.Tuple):
             if any(isinstance(x, ast.Starred) for x in e.elts):
